@@ -130,6 +130,9 @@ OwnCode(r) == IF r.k = "none" THEN -1 ELSE IF r.k = "empty" THEN 0 ELSE 1
 \* minus erases reported from inside the guarded scopes): the registry is exact
 ProjMatches(st, ev) ==
   /\ "own" \in DOMAIN ev => \A o \in OwnersOf(st) : ev.own[o] = OwnCode(st.own[o])
+  \* an owner that reports is_unregistered() is inert: it hands null (0) to the sandbox, not the
+  \* entry point it had (ev.stale[o] = 1: unregistered and still carrying a representation)
+  /\ "stale" \in DOMAIN ev => \A o \in OwnersOf(st) : ev.stale[o] = 0
   /\ "listed" \in DOMAIN ev =>
         \A s \in Sandboxes(st) : ev.listed[s] = (IF st.status[s] = "cr" THEN 1 ELSE 0)
 
